@@ -13,6 +13,10 @@
 //	sched     NewScheduler / ValidateShardOrigin / ShardIndexForPublisher over small committees
 //	validator UnitValidator.Validate behind the processor's per-message-key routing: honest units
 //	          (must be accepted) and every single-field corruption (must be rejected or harmless)
+//	sizes     every size-dependent function (leaf hash, leaf encoding, uvarint, padding, split, wire
+//	          form, create -> validate -> construct) at EVERY size of a dense range and around every
+//	          power of two, against an independent implementation of the protocol definition;
+//	          tampering at every position class (sizes.go)
 package main
 
 import (
@@ -65,6 +69,8 @@ type hctx struct {
 	traces map[*procScenario][]traceStep
 	// the re-run of such a scenario is in progress: a divergence now is not queued again
 	rerunning bool
+	// scenarios run again with a patient child after a task-counter mismatch (capped)
+	patientReruns int
 	// driverBroken is set after the first driver failure: the sections keep running their
 	// oracles on the real code, without correspondence.
 	driverBroken bool
@@ -115,6 +121,10 @@ func (h *hctx) flush() {
 	if len(outs) < len(cbs) && err == nil {
 		h.driverBroken = true
 		h.res.Fatalf("driver answered %d of %d requests", len(outs), len(cbs))
+	}
+	// a callback may have queued follow-up requests (the preimage chain of sizes.go): until none is left
+	if len(h.pendLines) > 0 && !h.driverBroken {
+		h.flush()
 	}
 }
 
@@ -224,7 +234,11 @@ func main() {
 		name string
 		run  func(*hctx, *lib.RNG)
 	}{{"padding", secPadding}, {"merkle", secMerkle}, {"rs", secRS}, {"e2e", secE2E}, {"sched", secSched}, {"validator", secValidator},
-		{"wire", secWire}, {"timecache", secTimecache}, {"processor", secProcessor}} {
+		{"wire", secWire}, {"timecache", secTimecache}, {"processor", secProcessor}, {"sizes", secSizes}} {
+		// C19_SECTIONS=a,b (debugging aid only; ./check never sets it): run just these sections
+		if only := os.Getenv("C19_SECTIONS"); only != "" && !strings.Contains(","+only+",", ","+sec.name+",") {
+			continue
+		}
 		t0 := time.Now()
 		sec.run(h, r.Fork(uint64(i+1)))
 		h.flush()
@@ -265,6 +279,8 @@ func runReplay(h *hctx, path string) {
 		padCase(h, b, num(rp["k"]))
 	case "timecache":
 		secTimecache(h, lib.NewRNG(1))
+	case "timecache-run":
+		tcReplay(h, rp)
 	case "wire":
 		b, _ := unhx(str(rp["proto"]))
 		var pu pb.PropellerUnit
@@ -302,6 +318,17 @@ func runReplay(h *hctx, path string) {
 			return
 		}
 		procCase(h, &sc)
+	case "size-leaf":
+		b, _ := unhx(str(rp["leaf"]))
+		sizeLeafCase(h, b, true)
+	case "size-e2e":
+		msg, _ := unhx(str(rp["msg"]))
+		w, err := newSizeWorld(num(rp["n"]))
+		if err != nil {
+			h.res.Fatalf("replay: %v", err)
+			return
+		}
+		sizeE2ECase0(h, w, msg, nonceOf(rp["nonce"]), sizeOpts{model: true, tamper: 4})
 	case "marshal":
 		sh, _ := parseHexList(str(rp["shards"]))
 		marshalCase(h, sh)
